@@ -2016,7 +2016,7 @@ func c07Pipelines(c *Ctx) {
 	c07UnusedInputStream(c)
 	n := 600
 	if c.Thorough {
-		n = 5000
+		n = 4000
 	}
 	for i := 0; i < n; i++ {
 		c07JudgePipe(c, c07GenPipe(c), "random")
@@ -2028,7 +2028,7 @@ func c07Pipelines(c *Ctx) {
 	c07StageRetainStream(c, m)
 	k := 30
 	if c.Thorough {
-		k = 400
+		k = 300
 	}
 	c07NestedRuntime(c, k)
 }
